@@ -28,7 +28,7 @@ DBX = "abyssiniandb::filedb::inner::dbxxx::"
 COUNTER = "DbXxxIterMut.remaining_item_count"
 
 
-def check(ctx):
+def _check_own(ctx):
     prog = ctx.prog
     R = Roles(prog)
     check_one_iterator(ctx, prog, R)
@@ -317,3 +317,11 @@ def _is_snapshot(fn, w, v, loop_blocks):
         if b in loop_blocks or any(b in fn.reachable(fn.normal_succs(lb)) and lb in fn.reachable(fn.normal_succs(b)) for lb in loop_blocks):
             return False
     return True
+
+
+def check(ctx):
+    _check_own(ctx)
+    from .engine import import_rules
+    # size hints and the end of iteration come from the stored item count: it must step with every insert / delete
+    import_rules(ctx, "c05", {"count-writers", "count-step", "count-arm"})
+    import_rules(ctx, "c01", {"op-wiring"})
